@@ -726,6 +726,10 @@ class OfxgetWorld:
         if got is None:
             if run.ok and not run.dryrun:
                 self.violate("C19", "M1-accounts", "nothing-sent", f"run{run.n} succeeded but no statement request reached a server")
+            elif not run.ok and not run.all and want and not self.expected_failure(run, expect, accounts, bankid, brokerid, plain=True):
+                self.violate("C19", "M1-accounts", "run-fails",
+                             f"run{run.n}: {run.cmd} with accounts {accounts} configured fails ({run.exc}) instead of "
+                             f"requesting them", exc=(run.exc or "").split(":")[0])
             elif not run.ok and run.all and want and not self.expected_failure(run, expect, accounts, bankid, brokerid):
                 self.violate("C19", "M1-accounts", "all-run-fails",
                              f"run{run.n}: --all with ACTIVE accounts {accounts} listed by the server fails ({run.exc}) "
@@ -763,8 +767,13 @@ class OfxgetWorld:
                          f"run{run.n} ({run.cmd}{' --all' if run.all else ''}): requested {fmt(got)}; expected {fmt(want)}; "
                          f"missing {fmt(missing)}; unexpected {fmt(extra)}", all=run.all)
 
-    def expected_failure(self, run, expect, accounts, bankid, brokerid):
+    def expected_failure(self, run, expect, accounts, bankid, brokerid, plain=False):
         """runs the CLI legitimately refuses"""
+        if plain:
+            if null(expect["user"]):
+                return True
+            if any(getattr(s, "rejected", False) for fi, s in self.main_requests(run)):
+                return True
         if any(accounts.get(t.lower()) for t in BANKTYPES) and bankid is None:
             return True
         if run.cmd == "stmt" and accounts.get("investment") and brokerid is None:
@@ -775,7 +784,7 @@ class OfxgetWorld:
             return True
         if self.fault_next is not None or self.stmt_error or self.acct_error:
             return True
-        if run.dryrun:
+        if run.dryrun and not plain:
             return True
         return False
 
@@ -923,6 +932,12 @@ def drive(world, tier):
         if cmd == "acctinfo":
             world.acct_spec = draw_accounts(world)
             sim.log(f"server account list: {[(a['kind'], a.get('accttype'), a['acctid'], a['status']) for a in world.acct_spec]}")
+        # an account number with a leading "-" (the server may list one) cannot be passed as an option value
+        for opt in LISTS:
+            if opt in cli:
+                cli[opt] = [a for a in cli[opt] if not a.startswith("-")]
+                if not cli[opt]:
+                    del cli[opt]
         # keep most runs productive: a run that lacks a prerequisite (no URL anywhere, unclosed elements with an
         # OFXv2 version, no user, bank accounts without a bank id) fails before it does anything worth judging, so
         # most of the time - not always - the command line supplies what is missing
